@@ -10,7 +10,7 @@
 #include <string.h>
 
 static uint64_t evals;
-static session_table *T;
+static session_table *T, *T2;        /* T2: the (empty) session table of a second interface */
 static const uint8_t *OWN;
 static e1_cfg pseudo;
 
@@ -107,6 +107,14 @@ static void one_discover(size_t mtu, int count, int pos, int shape, int flags) {
         if (pos >= 0 && !ack_class) { char sig[96]; snprintf(sig, sizeof sig, "classify:listed-but-noack:%s", where); vf_violation(sig, "own address at position %d of %d stations (6-byte entries), table %s: classified %s instead of acknowledging", pos, count, TBNAME[shape], evname(ev)); }
         if (pos < 0 && !noack_class) { char sig[96]; snprintf(sig, sizeof sig, "classify:not-listed-but-acking:%s", where); vf_violation(sig, "own address not among the %d stations (%s), table %s: classified %s instead of not acknowledging", count, where, TBNAME[shape], evname(ev)); }
     }
+    /* the same frame classified for a second interface whose table knows no session: what interface 1 knows must not matter */
+    if (!T2) T2 = session_table_create();
+    set_addresses((flags >> 2) & 3);
+    int evb = derive_session_event_len(buf, 36 + 6 * (size_t)count, T2, OWN);
+    set_addresses(0);
+    evals++;
+    if (evb == sess_discover_acking_chgd_xid || evb == sess_discover_noack_chgd_xid)
+        vf_violation("classify:changed-transaction-from-another-table", "table of interface 1: %s; the same Discover classified against the EMPTY table of a second interface gives %s", TBNAME[shape], evname(evb));
     int is_chgd = (ev == sess_discover_acking_chgd_xid || ev == sess_discover_noack_chgd_xid);
     if (is_chgd != changed) vf_violation(changed ? "classify:changed-transaction-missed" : "classify:changed-transaction-spurious", "table %s: event %s, the 'changed transaction' variant is due exactly when the same mapper+generation is known under another sequence number", TBNAME[shape], evname(ev));
 }
@@ -150,7 +158,7 @@ static void one_opcode(int opcode, int dst) {
 
 static int staged[8], nst;
 static void ps_name(int ev, char *b, size_t cap) { snprintf(b, cap, "arg(%d)", ev); }
-static void ps_root(void) { nst = 0; T = session_table_create(); }
+static void ps_root(void) { nst = 0; T = session_table_create(); T2 = NULL; }
 static void ps_apply(int ev) {
     staged[nst++] = ev;
     if (staged[0] == 0 && nst == 6) { one_discover((size_t)staged[1], staged[2], staged[3] - 8, staged[4], staged[5]); nst = 0; }
